@@ -56,6 +56,20 @@ def _rand_c01(rng, tier, sc0):
                 if st["op"] == "Log" and st["len"] >= 12 and rng.random() < 0.3:
                     st["recursive"] = rng.choice([1, 1, 2, 3])      # nesting depth
                     st["ilen"] = rng.choice([12, 12, 30, c.get("size", 10) + 12, c.get("cap", 64) + 1])
+        if i % 25 == 13:
+            # a directory occupies the name of the next file of the family (rotated file resp., with a direct naming, the next
+            # current file): the rotation fails, the records go on into the file that is open - none is lost, none twice
+            nm = rng.choice(["Num", "NumD"])
+            c = {"naming": nm, "rot": True, "size": rng.choice([10, 30, 60]), "mode": rng.choice(["direct", "buf"]), "cap": 64,
+                 "crlf": False}
+            idx = rng.choice([0, 1]) + (1 if nm == "NumD" else 0)
+            steps = [{"op": "Start", "append": False}, {"op": "ExtCreate", "name": f"app_r{idx:05d}.log", "dir": True, "content": ""}]
+            steps += [{"op": "Log", "len": rng.choice([9, 12, 21, 40])} for _ in range(rng.choice([6, 10, 16]))]
+            if rng.random() < 0.6:
+                steps.append({"op": "ExtRemove", "which": f"app_r{idx:05d}.log"})
+                steps += [{"op": "Log", "len": rng.choice([9, 12, 21, 40])} for _ in range(rng.choice([3, 6]))]
+            steps += [{"op": "Flush"}, {"op": "Stop"}]
+            nrec = 10
         out.append({"sc": sc0 + i, "cfg": c, "t0": G.boundary_t0(rng), "steps": steps,
                     "origin": "rand", "obs": "every" if nrec <= 20 else "sync"})
     return out
@@ -171,6 +185,17 @@ def _rand_c06(rng, tier, sc0):
                 steps.append({"op": "Stop"})
                 if rng.random() < 0.5:
                     steps.append({"op": "Adv", "dt": rng.choice([1, 2, 5, 60])})
+        if i % 20 == 11:
+            # the bare FileLogWriter with its own flusher thread (BufferAndFlush, long interval), no rotation, restarts with
+            # append: the flusher thread of an earlier run outlives it - what that run accepted must be in the file when
+            # its shutdown has returned, in front of what the next run writes
+            c = {"rot": False, "naming": "Num", "mode": "bufflush", "cap": rng.choice([256, 8192]), "flush_ms": 1000, "crlf": False,
+                 "via": "flw"}
+            steps = []
+            for r in range(rng.choice([2, 3])):
+                steps.append({"op": "Start", "append": True})
+                steps += [{"op": "Log", "len": rng.choice([9, 12, 21, 40])} for _ in range(rng.choice([1, 3, 5]))]
+                steps.append({"op": "Stop"})
         if i % 5 == 4 and c.get("rot", True) and "use_ts" not in c:
             # FileLogWriter::builder().use_utc(): infixes rendered in UTC (the shards run under different zones)
             c["via"], c["utc"] = "flw", True
@@ -1075,6 +1100,13 @@ def C19(tier, seed):
                 steps.append({"op": "Log", "len": rng.choice([9, 12, 21, 40])})
             steps.append({"op": "Stop"})
             base.append({"sc": len(base) + 1, "cfg": c, "t0": 1000, "steps": steps, "origin": "rand"})
+        # directed histories (the sample above depends on the order in which TLC's workers print): rotations WITH a synchronous
+        # cleanup, followed by enough records to see whether rotation goes on as it should once a failing cleanup step is over
+        for (nm, cl) in (("Num", {"m": 1}), ("NumD", {"m": 1}), ("Num", {"k": 1}), ("NumD", {"k": 1}), ("Ts", {"k": 1, "m": 1})):
+            c = {"naming": nm, "rot": True, "size": 30, "mode": "direct", "crlf": False, "bg": False, "append": False}
+            c.update(cl)
+            steps = [{"op": "Start", "append": False}] + [{"op": "Log", "len": 12} for _ in range(13)] + [{"op": "Stop"}]
+            base.append({"sc": len(base) + 1, "cfg": c, "t0": 1000, "steps": steps, "origin": "directed"})
         # the property on the model: FlwF.tla = Flw.tla with failing effects, every fault plan x every history in the bounds
         fcfg = "MCFlwF_q.cfg" if tier == "quick" else "MCFlwF_t.cfg"
         r = C.run_tlc("MCFlwF.tla", os.path.join(C.SPEC, fcfg), os.path.join(wd, "mc-flwf"), workers=6, timeout=3000)
